@@ -91,8 +91,8 @@ def nextHeight : Chain → Nat
 def byNumber? (c : Chain) (n : Nat) : Option Blk := c.find? (fun b => b.num == n)
 
 /-- Which variant of the code is modelled. The model follows the code: `Cfg.asFound` is the variant
-/repo contains NOW — since the commits 4de714c, 6c0318d, 508f9af that is the repaired code, all
-three fields `true` — and `Cfg.original` is the code at the pinned commit before those fixes. The
+/repo contains NOW — since the commits 4de714c, 6c0318d, 508f9af, 40dc8b7, 158580c that is the
+repaired code, all five fields `true` — and `Cfg.original` is the code at the pinned commit before those fixes. The
 theorems are stated for every `Cfg`; the negation witnesses are about `Cfg.original`. -/
 structure Cfg where
   /-- `isReverting` returns `(0, true)` instead of `(remoteHeight-1, true)` when `remoteHeight = 0`
@@ -106,11 +106,11 @@ structure Cfg where
   (`proposed-fixes/C06-storetask-confirm-head-before-revert.diff`, commit 508f9af) -/
   confirmHead : Bool
   /-- `revertTask` runs `SanityCheckNewHeight` on the answer before it compares hashes and breaks
-  when the check fails (`proposed-fixes/C06-reverttask-verify-answer.diff`) -/
+  when the check fails (commit 40dc8b7) -/
   verifyAns : Bool
   /-- `isReverting` does not act on a differing `BlockHeaderLatest` answer alone: it fetches that
   block, verifies it and requires it to carry the announced number and hash
-  (`proposed-fixes/C06-isreverting-confirm-latest-header.diff`) -/
+  (commit 158580c) -/
   confirmLatest : Bool
 deriving DecidableEq, Repr, Inhabited
 
@@ -121,11 +121,11 @@ def Cfg.original : Cfg := ⟨false, false, false, false, false⟩
 /-- THE SWITCH: the variant /repo currently contains (used by the driver, i.e. by the
 correspondence check, and by the `…_asFound` theorems in Props.lean). A field is `true` when the
 corresponding fix is in /repo: `zeroGuard` = 4de714c, `numCheck` = 6c0318d, `confirmHead` = 508f9af;
-`verifyAns` and `confirmLatest` are the two fixes proposed after the review (not applied yet).
+`verifyAns` = 40dc8b7, `confirmLatest` = 158580c (the two fixes made after the independent review).
 If one of these commits is reverted, set its field back to `false` (the check then reports the
 finding again as a violation, and `run_accepted_asFound` / `convergence_sequential_asFound` stop
 compiling until they are weakened). -/
-def Cfg.asFound : Cfg := ⟨true, true, true, false, false⟩
+def Cfg.asFound : Cfg := ⟨true, true, true, true, true⟩
 
 /-- all proposed fixes applied -/
 def Cfg.fixed : Cfg := ⟨true, true, true, true, true⟩
